@@ -25,6 +25,7 @@ import (
 
 	"github.com/gontainer/gontainer-helpers/v3/exporter"
 	"github.com/gontainer/gontainer/internal/pkg/consts"
+	"github.com/gontainer/gontainer/internal/pkg/imports"
 	"github.com/gontainer/gontainer/internal/pkg/regex"
 )
 
@@ -136,7 +137,7 @@ func (f *FactoryFunction) Create(expr string) (Token, error) {
 	body := fmt.Sprintf(
 		`r, err = %s; if err != nil { err = %s.Errorf("%%s: %%w", %s, err) }; return`,
 		callFn,
-		f.aliaser.Alias("fmt"),
+		imports.Absolute(f.aliaser, "fmt"),
 		exporter.MustExport(fmt.Sprintf("cannot execute %s", expr)),
 	)
 
